@@ -224,7 +224,7 @@ def verify_unit(name, seed=None, rlimit=None, items=None, mutate=None, keep=True
     if mutate:
         mutate(out)
     os.makedirs(BUILD, exist_ok=True)
-    suffix = ".twin" if twin else ("" if mutate is None else f".mut{os.getpid()}")
+    suffix = "_twin" if twin else ("" if mutate is None else f"_mut{os.getpid()}")
     src = os.path.join(BUILD, f"{name}{suffix}.rs")
     with open(src, "w") as f:
         f.write(out.text())
